@@ -55,6 +55,17 @@ def run(res):
         if r.random() < 0.5:
             cfg["scene_cuts"]["all"] = False
         jobs.append(("editor overlapping #%d" % k, "editor", cfg))
+    # ---- editor configs whose list sections hold several entries that tie: duplicates inserted at the same
+    # offset from different sources, several removal ranges (the order of arrays is part of the content: written as is)
+    for k in range(3 if res.tier == "quick" else 12):
+        off = r.randrange(n)
+        dup = [{"source": sidx, "offset": off, "length": r.choice([1, 2])} for sidx in r.sample(range(n), r.choice([3, 4, 5]))]
+        dup.insert(r.randrange(len(dup) + 1), {"source": r.randrange(n), "offset": r.randrange(n), "length": 1})
+        cfg = {"duplicate": dup}
+        if r.random() < 0.6:
+            a = r.randrange(n - 12)
+            cfg["remove"] = ["%d-%d" % (a, a + 3), str(a + 7), "%d-%d" % (a + 9, a + 10)]
+        jobs.append(("editor duplicate entries sharing an offset #%d" % k, "editor-lists", cfg))
     xmls = [f for f in sorted(os.listdir(os.path.join(ASSETS, "tests"))) if f.endswith(".xml")]
     gens = [f for f in sorted(os.listdir(os.path.join(ASSETS, "generator_examples"))) if f.endswith(".json")]
     for f in xmls:
@@ -121,6 +132,10 @@ def run(res):
                 cfg2["active_area"] = aa
                 open(cj, "w").write(json.dumps(cfg2))
                 args, files = ["editor", "-i", rpu_bin, "-j", cj, "-o", o("out.bin")], [o("out.bin")]
+            elif kind == "editor-lists":
+                cj = o("cfg.json")
+                open(cj, "w").write(json.dumps(arg))
+                args, files = ["editor", "-i", rpu_bin, "-j", cj, "-o", o("out.bin")], [o("out.bin")]
             elif kind == "xml":
                 args, files = ["generate", "--xml", os.path.join(ASSETS, "tests", arg), "-o", o("out.bin")], [o("out.bin")]
             elif kind == "xmlpath":
@@ -179,13 +194,15 @@ def run(res):
         distinct[label] = len(outs)
         if len(outs) > 1:
             res.violation("%s: %d distinct results in %d runs of the same command on the same inputs" % (label, len(outs), nproc),
-                          {"label": label, "args": first[0], "config": arg if kind == "editor" else None, "results": [list(map(str, x)) for x in sorted(outs, key=str)][:6]})
+                          {"label": label, "args": first[0], "config": arg if kind in ("editor", "editor-lists") else None, "results": [list(map(str, x)) for x in sorted(outs, key=str)][:6]})
+        elif kind == "editor-lists" and first[2] != "0":
+            res.violation("%s: the editor rejects the config (exit %s)" % (label, first[2]), {"label": label, "config": arg})
         elif kind != "editor" and first[2] not in ("0",):
             res.assumptions.append("%s exits %s on the sample input (still deterministic)" % (label, first[2]))
     res.coverage.update({
         "evaluations": nrun,
         "distinct_nontrivial": len(jobs),
-        "rule": "each job run in %d fresh processes (per-process hash seeds by construction; different cwd, HOME, TZ, LANG, RUST_BACKTRACE and extra environment noise); hashes of every output file and the exit code compared across runs; editor configs with 2..5 pairwise-overlapping scene-cut and active-area ranges on the 259-frame sample, the same map content written in a different entry order for every run, compared with the Coq model fed in file order and in key order; generate from every sample XML (several target displays) and generator JSON; convert, demux, extract-rpu, remove, mux, inject-rpu, info, export on the sample streams" % nproc,
+        "rule": "each job run in %d fresh processes (per-process hash seeds by construction; different cwd, HOME, TZ, LANG, RUST_BACKTRACE and extra environment noise); hashes of every output file and the exit code compared across runs; editor configs with 2..5 pairwise-overlapping scene-cut and active-area ranges on the 259-frame sample, the same map content written in a different entry order for every run, compared with the Coq model fed in file order and in key order; editor configs with 3..5 `duplicate` entries inserted at one offset from different sources and several `remove` ranges; generate from every sample XML (several target displays) and generator JSON; convert, demux, extract-rpu, remove, mux, inject-rpu, info, export on the sample streams" % nproc,
         "cli_runs": nrun, "distinct_results_per_job": distinct, "model_checked": model_checked,
     })
     res.assumptions += ["independence from environment, working directory and fonts is observed by the repeated runs, not proved",
